@@ -1,1 +1,40 @@
-// harness part (stub)
+// In-crate harness parts that need the private items of crate::event
+// (included as crate::event::verif_event).  One sub-module per property;
+// each sub-module reaches event's private items with `use super::super::*;`.
+
+#[allow(dead_code, unused_imports, unused_variables, clippy::all)]
+pub(crate) mod common {
+    include!(concat!(env!("OSRG_RUSTYBGP_VERIF_DIR"), "/hd/ev_common.rs"));
+}
+#[allow(dead_code, unused_imports, unused_variables, clippy::all)]
+pub(crate) mod c01 {
+    include!(concat!(env!("OSRG_RUSTYBGP_VERIF_DIR"), "/hd/ev_c01.rs"));
+}
+#[allow(dead_code, unused_imports, unused_variables, clippy::all)]
+pub(crate) mod c05 {
+    include!(concat!(env!("OSRG_RUSTYBGP_VERIF_DIR"), "/hd/ev_c05.rs"));
+}
+#[allow(dead_code, unused_imports, unused_variables, clippy::all)]
+pub(crate) mod c09 {
+    include!(concat!(env!("OSRG_RUSTYBGP_VERIF_DIR"), "/hd/ev_c09.rs"));
+}
+#[allow(dead_code, unused_imports, unused_variables, clippy::all)]
+pub(crate) mod c10 {
+    include!(concat!(env!("OSRG_RUSTYBGP_VERIF_DIR"), "/hd/ev_c10.rs"));
+}
+#[allow(dead_code, unused_imports, unused_variables, clippy::all)]
+pub(crate) mod c11 {
+    include!(concat!(env!("OSRG_RUSTYBGP_VERIF_DIR"), "/hd/ev_c11.rs"));
+}
+#[allow(dead_code, unused_imports, unused_variables, clippy::all)]
+pub(crate) mod c16 {
+    include!(concat!(env!("OSRG_RUSTYBGP_VERIF_DIR"), "/hd/ev_c16.rs"));
+}
+#[allow(dead_code, unused_imports, unused_variables, clippy::all)]
+pub(crate) mod c18 {
+    include!(concat!(env!("OSRG_RUSTYBGP_VERIF_DIR"), "/hd/ev_c18.rs"));
+}
+#[allow(dead_code, unused_imports, unused_variables, clippy::all)]
+pub(crate) mod c20 {
+    include!(concat!(env!("OSRG_RUSTYBGP_VERIF_DIR"), "/hd/ev_c20.rs"));
+}
